@@ -37,6 +37,12 @@ def run(ctx):
         ctx.guard("first-candidate" + tag, c07.first_candidate, ctx, crate, crs, tag)
         ctx.guard("order-preserved" + tag, c07.order_preserved, ctx, crate, crs, tag)   # the lists decide() picks from are complete and in order
         ctx.guard("root-true-decisions" + tag, c05.true_decisions, ctx, crate, crs, tag)
+        # the best candidate of a direct requirement is given up only when the clauses rule it out: everything the solver adds on
+        # its own - negative assertions, conflict reports of the encoder, learnt clauses - must follow from the problem, or a
+        # transitive choice that was undone long ago keeps the direct requirement downgraded (rules of C01/C02 and C03)
+        import c01, c03
+        ctx.guard("registration" + tag, c01.registration, ctx, crate, crs, tag)
+        ctx.guard("antecedents" + tag, c03.antecedents, ctx, crate, crs, tag)
 
 
 def explicit_first(ctx, crate, crs, tag):
